@@ -244,6 +244,19 @@ func genClassLeaf(t *rapid.T, k Kind, cfg GenCfg, label string) *Val {
 			}
 			return &Val{S: Bytes(b)}
 		}
+	case "tail-forgery":
+		// values whose bytes spell the end of a Parquet file - a 4-byte little-endian footer length (0 or small) followed by the
+		// magic "PAR1": a file cut right after such a value ends in something that looks like a complete trailer
+		switch k {
+		case Int32:
+			return &Val{U: uint64(rapid.SampledFrom([]uint32{0x31524150, 0, 0x31524150, 1, 2, 16}).Draw(t, label))}
+		case Int64:
+			return &Val{U: rapid.SampledFrom([]uint64{0x3152415000000000, 0x3152415000000001, 0x3152415000000002, 0x3152415000000010, 0x3152415031524150}).Draw(t, label)}
+		case String:
+			n := rapid.SampledFrom([]byte{0, 0, 1, 2, 3, 8, 16}).Draw(t, label+"#len")
+			pre := rapid.SliceOfN(rapid.ByteRange(0, 0x19), 0, 20).Draw(t, label)
+			return &Val{S: Bytes(append(append(pre, n, 0, 0, 0), "PAR1"...))}
+		}
 	case "sentinel":
 		if k == String {
 			return &Val{S: Bytes(rapid.SampledFrom([]string{"__#NIL#__", "__#NIL#__", "__#NIL#_", "__#NIL#__a", "z", "", "A", "__#NIL#", "\xff"}).Draw(t, label))}
